@@ -8,6 +8,8 @@ def run(cmd, cwd=None, timeout=600):
     p = subprocess.run(cmd, shell=True, cwd=cwd, env=ENV, capture_output=True, text=True, timeout=timeout)
     return p.returncode, (p.stdout + p.stderr)
 NEEDS = json.load(open("/verif/tools/seeded_needs.json")) if os.path.exists("/verif/tools/seeded_needs.json") else {}
+SRC = os.environ.get("SEED_SRC", "/tmp/wt")
+IDMAP = dict(zip("ab", os.environ.get("SEED_LETTERS", "ab")))
 def main():
     dirs = sys.argv[1:] or ["c%02d" % i for i in range(1, 20)]
     run("git -C /repo worktree remove --force %s" % WT)
@@ -18,12 +20,12 @@ def main():
         for d in dirs:
             for x in "ab":
                 prop = d.upper()
-                sid = "%s-%s" % (prop, x)
-                src = "/tmp/rebased/%s_%s.patch" % (d, x)
+                sid = "%s-%s" % (prop, IDMAP[x])
+                src = "/tmp/rebased/%s_%s.patch" % (d, IDMAP[x])
                 rebased = os.path.exists(src)
                 if not rebased:
-                    src = "/tmp/wt/%s/mutant_%s.patch" % (d, x)
-                demo = "/tmp/wt/%s/seeded_demo_%s_test.go" % (d, x)
+                    src = "%s/%s/mutant_%s.patch" % (SRC, d, x)
+                demo = "%s/%s/seeded_demo_%s_test.go" % (SRC, d, x)
                 if not os.path.exists(src) or not os.path.exists(demo):
                     print(sid, "missing files"); continue
                 meta = {"id": sid, "breaks_property": prop, "source": "independent sub-agent given only the property text and a scratch worktree of the pinned commit", "verified_on_repo_head": head, "rebased_by_hand": rebased}
